@@ -13,6 +13,8 @@ from . import expr as X
 from .facts import walk
 from .lin import Lin, feasible, entails, model
 
+import os
+DEBUG_LOOPS = bool(os.environ.get("LA_DEBUG_LOOPS"))
 _ctr = [0]
 
 
@@ -139,6 +141,8 @@ def pointee_size(n, records=None):
 class Cap(object):
     MAX_STATES = 400
     MAX_INLINE = 2
+    skip_debug_arms = True
+    check_progress = False
 
     def __init__(self, prog, invariants=None, noreturn=("libast_fatal_error",), inline=True):
         self.prog = prog
@@ -336,12 +340,16 @@ class Cap(object):
         if pv[0] == "p":
             r = st.regions.get(pv[1])
             if r is not None and es == 1:
-                # byte of a C string: zero exactly at its length (when known)
+                # byte of a C string: zero exactly at its length (when known); the same cell read twice without an
+                # intervening write yields the same value
+                ck = ("cell", pv[1], pv[2])
+                if ck in st.heap:
+                    return st.heap[ck]
                 s = fresh("b")
-                st.imprecise.discard(s)
                 v = I(Lin.sym(s))
                 # remember which string byte this is for terminator reasoning
                 st.heap[("byte", s)] = (pv[1], pv[2])
+                st.heap[ck] = v
                 return v
         if n.get("tp"):
             return UNK
@@ -379,6 +387,12 @@ class Cap(object):
         elif loc[0] == "mem":
             pv, es = loc[1], loc[2]
             self.access(st, loc[3], pv, Lin.const(es), True, X.render(loc[3])[:40])
+            if pv[0] == "p":
+                self.forget_cells(st, pv[1])
+                if es == 1 and val[0] == "i":
+                    st.heap[("cell", pv[1], pv[2])] = val
+                    if len(val[1].t) == 1 and val[1].c == 0 and ("byte", val[1].t[0][0]) not in st.heap:
+                        pass
             if pv[0] == "p":
                 r = st.regions.get(pv[1])
                 if r is not None:
@@ -473,7 +487,13 @@ class Cap(object):
                 if c0.get("k") == "call" and X.callee_name(c0) in ("__ctype_b_loc", "__ctype_tolower_loc", "__ctype_toupper_loc"):
                     res = []
                     for s, iv_ in self.ev(n["ch"][1], st):
+                        mk = ("ctmemo", X.callee_name(c0), iv_[1]) if iv_[0] == "i" else None
+                        if mk is not None and mk in s.heap:
+                            res.append((s, s.heap[mk]))
+                            continue
                         r = fresh("ct")
+                        if mk is not None:
+                            s.heap[mk] = I(Lin.sym(r))
                         if iv_[0] == "i":
                             b = self.byte_of(s, iv_[1])
                             if b is not None:
@@ -718,6 +738,10 @@ class Cap(object):
                 st.cons.append(Lin.const(lb.c - 1) - res)
                 return I(res)
             if op == "&" and lb.is_const() and lb.c >= 0:
+                mk = ("andmemo", la, lb.c)
+                if mk in st.heap:
+                    return st.heap[mk]
+                st.heap[mk] = I(res)
                 st.cons.append(res)
                 st.cons.append(Lin.const(lb.c) - res)
                 if len(la.t) == 1 and la.c == 0 and ("ctype", la.t[0][0]) in st.heap:
@@ -866,6 +890,10 @@ class Cap(object):
             # offset != slen ; with offset <= slen known this gives offset < slen
             if entails(st.cons, r.slen - b[1]):
                 st.cons.append(r.slen - b[1] - 1)
+        elif r is not None and r.nul is not None:
+            # a known zero byte at `nul`: a non-zero byte at offset <= nul is strictly before it
+            if entails(st.cons, r.nul - b[1]):
+                st.cons.append(r.nul - b[1] - 1)
 
     def note_byte_zero(self, st, l):
         b = self.byte_of(st, l)
@@ -1003,7 +1031,13 @@ class Cap(object):
                     else:
                         r.slen = None
 
+    def forget_cells(self, st, rid=None):
+        for kx in [kx for kx in st.heap if isinstance(kx, tuple) and kx and kx[0] == "cell" and (rid is None or kx[1] == rid)]:
+            del st.heap[kx]
+
     def clobber(self, st, dst, nbytes):
+        if dst[0] == "p":
+            self.forget_cells(st, dst[1])
         if dst[0] == "p":
             r = st.regions.get(dst[1])
             if r is not None:
@@ -1390,6 +1424,83 @@ class Cap(object):
             self.depth -= 1
             self.cur_fn = saved_fn
 
+    # ------------------------------------------------------------------ state merging
+    def merge(self, states, limit=12):
+        """Join states that agree on every pointer, region fact and object shape; integers that differ become
+        fresh (imprecise) symbols and only the common constraints are kept.  Sound (a weaker state), applied only
+        when the frontier grows beyond `limit`."""
+        if len(states) <= limit:
+            return states
+        groups = {}
+        order = []
+        for st in states:
+            sig = []
+            live = set()
+            for d in sorted(st.env, key=lambda x: str(x)):
+                v = st.env[d]
+                sig.append((d, v if v[0] != "i" else "i"))
+                if v[0] == "p":
+                    live.add(v[1])
+            for kx in sorted(st.heap, key=lambda x: str(x)):
+                if isinstance(kx, tuple) and kx and kx[0] in ("byte", "ctype", "addrof", "cell", "ctmemo", "andmemo"):
+                    continue      # bookkeeping about individual reads: not part of the program state
+                v = st.heap[kx]
+                if isinstance(v, tuple) and v and v[0] == "i":
+                    sig.append((kx, "i"))
+                else:
+                    sig.append((kx, v))
+                    if isinstance(v, tuple) and v and v[0] == "p":
+                        live.add(v[1])
+            if st.ret is not None and st.ret[0] == "p":
+                live.add(st.ret[1])
+            for rid in sorted(live):
+                r = st.regions.get(rid)
+                if r is not None:
+                    sig.append((rid, r.freed, r.cap, r.slen, r.nul))
+            sig.append(("ret", st.ret if st.ret is None or st.ret[0] != "i" else "i"))
+            key = repr(sig)
+            if key not in groups:
+                groups[key] = []
+                order.append(key)
+            groups[key].append(st)
+        out = []
+        for key in order:
+            g = groups[key]
+            if len(g) == 1:
+                out.append(g[0])
+                continue
+            base = g[0].copy()
+            common = set(g[0].cons)
+            for st in g[1:]:
+                common &= set(st.cons)
+                base.imprecise |= st.imprecise
+                for kx, v in st.heap.items():
+                    if isinstance(kx, tuple) and kx and kx[0] in ("byte", "ctype", "addrof"):
+                        base.heap.setdefault(kx, v)
+                for kx in [kx for kx in base.heap if isinstance(kx, tuple) and kx and kx[0] in ("cell", "ctmemo", "andmemo") and st.heap.get(kx) != base.heap[kx]]:
+                    del base.heap[kx]
+                for rid, r in st.regions.items():
+                    base.regions.setdefault(rid, r)
+            base.cons = [c for c in g[0].cons if c in common]
+            for d in list(base.env):
+                v = base.env[d]
+                if v[0] == "i" and any(st.env.get(d) != v for st in g[1:]):
+                    x = fresh("mg")
+                    base.env[d] = I(Lin.sym(x))
+                    base.imprecise.add(x)
+            for kx in list(base.heap):
+                v = base.heap[kx]
+                if isinstance(v, tuple) and v and v[0] == "i" and any(st.heap.get(kx) != v for st in g[1:]):
+                    x = fresh("mg")
+                    base.heap[kx] = I(Lin.sym(x))
+                    base.imprecise.add(x)
+            if base.ret is not None and base.ret[0] == "i" and any(st.ret != base.ret for st in g[1:]):
+                x = fresh("mg")
+                base.ret = I(Lin.sym(x))
+            base.path = base.path[:4] + ["<%d paths merged>" % len(g)]
+            out.append(base)
+        return out
+
     # ------------------------------------------------------------------ statements
     def exec(self, n, st):
         """-> {'norm': [...], 'brk': [...], 'cont': [...], 'ret': [...]}"""
@@ -1407,12 +1518,14 @@ class Cap(object):
                     nxt.extend(o["norm"])
                     for key in ("brk", "cont", "ret"):
                         out[key].extend(o[key])
-                states = nxt
+                states = self.merge(nxt)
                 if len(states) > self.MAX_STATES:
                     raise TooManyStates()
                 if not states:
                     break
             out["norm"] = states
+            for key in ("brk", "cont", "ret"):
+                out[key] = self.merge(out[key], 24)
             return out
         if k == "decl":
             states = [st]
@@ -1447,6 +1560,14 @@ class Cap(object):
             out["norm"] = [st]
             return out
         if k == "if":
+            if self.skip_debug_arms:
+                c0 = X.strip(n["cond"])
+                if c0.get("k") == "bin" and X.strip(c0["ch"][0]).get("n") == "libast_debug_level" and X.const_val(c0["ch"][1]) is not None:
+                    # runtime debug level arms only log (D_*, REQUIRE) or end the path (ASSERT's fatal arm): follow the quiet arm
+                    if n.get("else") is not None:
+                        return self.exec(n["else"], st)
+                    out["norm"].append(st)
+                    return out
             ts, fs = self.branch(n["cond"], st)
             for s in ts:
                 o = self.exec(n["then"], s)
@@ -1644,9 +1765,8 @@ class Cap(object):
                         sub[key] = ("i", x, v[1])
                     elif v[0] == "p":
                         h.heap[key] = UNK
-            # memory written in the loop: forget string facts of regions reachable through modified cursors
-            for r in h.regions.values():
-                pass
+            # memory may be written in the loop: cells read before it are no longer known
+            self.forget_cells(h)
             return h, sub
 
         h, sub = havoc(pre)
@@ -1663,6 +1783,8 @@ class Cap(object):
                 if r is not None:
                     if r.slen is not None:
                         cands.append(("off<=slen", r.slen - x))
+                    if r.nul is not None:
+                        cands.append(("off<=nul", r.nul - x))
                     if r.cap is not None:
                         cands.append(("off<=cap", r.cap - x))
             else:
@@ -1680,11 +1802,20 @@ class Cap(object):
                 cands.append(("sum+", (xa + xb) - s0))
                 cands.append(("sum-", s0 - (xa + xb)))
         # guard-derived candidates: a < b  ->  a <= b as invariant (evaluated over the havocked symbols)
-        if n.get("cond") is not None:
+        if True:
             rs0 = self.record
             self.record = False
             try:
-                for cj in self.conjuncts(n["cond"]):
+                conds = list(self.conjuncts(n["cond"])) if n.get("cond") is not None else []
+                # comparisons guarding statements inside the body bound what those statements can reach as well
+                for part in ("body", "inc"):
+                    if n.get(part) is not None:
+                        for x in walk(n[part]):
+                            if x.get("k") in ("if", "while", "for") and x.get("cond") is not None:
+                                conds.extend(self.conjuncts(x["cond"]))
+                            elif x.get("k") == "cond":
+                                conds.extend(self.conjuncts(x["ch"][0]))
+                for cj in conds[:12]:
                     c0 = X.strip(cj)
                     if c0.get("k") == "bin" and c0.get("op") in ("<", "<=", ">", ">="):
                         hv = h.copy()
@@ -1743,6 +1874,8 @@ class Cap(object):
                             m[info[1]] = nv
                         if bad or not entails(e.cons, c[1].subst(m)):
                             ok = False
+                            if DEBUG_LOOPS and n.get("l") == int(os.environ.get("LA_DEBUG_LINE", "0")):
+                                print("   drop %s %r: bad=%s path=%s" % (c[0], c[1], bad, e.path[-6:]))
                             break
                     if ok:
                         nk.append(c)
@@ -1752,9 +1885,13 @@ class Cap(object):
                 if not dropped:
                     break
         except TooManyStates:
+            if DEBUG_LOOPS:
+                print("LOOP line %s: TooManyStates during invariant inference (nstates=%d)" % (n.get("l"), self.nstates))
             keep = []
         finally:
             self.record = record_save
+        if DEBUG_LOOPS:
+            print("LOOP line %s depth-record=%s: kept %s of %d; ends=%s" % (n.get("l"), record_save, [c[0] + ":" + repr(c[1]) for c in keep][:12], len(cands), "?"))
         # invariants must also hold on entry: by construction x=e0 satisfies ge0/le0/lock/sum; check the others
         m0 = {info[1]: info[2] for info in sub.values()}
         keep = [c for c in keep if entails(pre.cons, c[1].subst(m0))]
@@ -1766,13 +1903,60 @@ class Cap(object):
             lo = any(c[0] in ("ge0",) for c in keep if x in c[1].syms())
         # final run with obligations recorded
         body_in, exit_states = self.branch(n["cond"], hs) if n.get("cond") is not None else ([hs], [])
+        final_ends = []
         for s in body_in:
             o = self.exec(n["body"], s)
             out["ret"].extend(o["ret"])
             out["norm"].extend(o["brk"])
-            if n.get("inc") is not None:
-                for s2 in o["norm"] + o["cont"]:
-                    self.ev(n["inc"], s2)
+            for s2 in o["norm"] + o["cont"]:
+                if n.get("inc") is not None:
+                    for s3, _ in self.ev(n["inc"], s2):
+                        final_ends.append(s3)
+                else:
+                    final_ends.append(s2)
+        # which loop-carried quantities move strictly in one direction on every way round the loop?
+        strict_up, strict_down = [], []
+        for key, info in sub.items():
+            x = Lin.sym(info[1])
+            up = down = bool(final_ends)
+            for e in final_ends:
+                nv = value_of(e, key, info)
+                if nv is None:
+                    up = down = False
+                    break
+                if up and not entails(e.cons, nv - x - 1):
+                    up = False
+                if down and not entails(e.cons, x - nv - 1):
+                    down = False
+                if not up and not down:
+                    break
+            if up:
+                strict_up.append(info)
+            if down:
+                strict_down.append(info)
+        # exits through the havocked state stand for "after at least one iteration" (zero iterations are the precise
+        # f0 exits): strictly monotone quantities have moved by at least one step
+        for e in exit_states:
+            for info in strict_up:
+                if ("ge0", Lin.sym(info[1]) - info[2]) in keep or any(c[0] == "ge0" and c[1] == Lin.sym(info[1]) - info[2] for c in keep):
+                    e.cons.append(Lin.sym(info[1]) - info[2] - 1)
+            for info in strict_down:
+                if any(c[0] == "le0" and c[1] == info[2] - Lin.sym(info[1]) for c in keep):
+                    e.cons.append(info[2] - Lin.sym(info[1]) - 1)
+        if self.check_progress and self.record and sub:
+            witness = (strict_up or strict_down or [None])[0]
+            if not final_ends:
+                witness = "no way round"
+            key_ = (self.cur_fn.name, "progress", n["i"])
+            if key_ not in self.seen_obl:
+                o_ = Obligation("progress", n, self.cur_fn, witness is not None,
+                                "no loop-carried variable provably advances on every way round this loop (it may not terminate)",
+                                undecided=witness is None)
+                self.seen_obl[key_] = o_
+                self.obls.append(o_)
+            elif witness is None:
+                self.seen_obl[key_].ok = False
+                self.seen_obl[key_].undecided = True
         # zero-iteration exit straight from the pre-state keeps full precision
         out["norm"].extend(f0)
         out["norm"].extend(exit_states)
